@@ -293,7 +293,7 @@ pub fn run(report: &mut Report, replay: Option<&Value>) {
             let _ = std::fs::remove_dir_all(&root);
         }
     });
-    let n = if report.thorough() { 6000 } else { 400 };
+    let n = if report.thorough() { 6000 } else { 1500 };
     let mut stats = GenStats::default();
     let tapes = sample_tapes(report.seed, 0xC19, n, 3072);
     let runs: Vec<Run> = tapes.iter().enumerate().filter_map(|(i, tp)| gen_run(tp, &mut stats, i % 4 == 3)).collect();
